@@ -10,7 +10,10 @@ the table for every request -/
 structure State where
   cur : Option Cal := none
   tbl : List Int := []
-  reg : Registry := []
+  /-- the module registry `calendars`: OBJECTS, each with its lazily built table (round k3) -/
+  oreg : ObjRegistry := []
+  /-- the current calendar is the object the registry holds under this key (`none`: it was built by a `new*` line) -/
+  curKey : Option String := none
 
 abbrev St := State
 def init : St := {}
@@ -52,6 +55,13 @@ def resInts : Res (List Int) → String
   | .ok xs => "ok " ++ renderInts xs
   | .error e => "err " ++ e.render
 
+def renderAns : Ans → String
+  | .bool b => okBool b
+  | .day r => resInt r
+  | .days r => resInts r
+  | .idx (.ok i) => okInt i
+  | .idx (.error e) => "err " ++ e.render
+
 /-- every weekday a weekend day: the real `adjust` never returns; not served -/
 def degenerate (weekend : List Int) : Bool := (List.range 7).all fun d => weekend.contains (d : Int)
 
@@ -75,18 +85,46 @@ def handle (s : St) (op : String) (args : List Sexp) : Option (St × String) := 
       let c0 : Cal := mkCalT ymKey { hol := some hol, weekend := some we, t0 := some t0, t1 := some t1 }
       let a ← adjOf c0 adj
       let c : Cal := { c0 with adj := a }
-      pure ({ s with cur := some c, tbl := c.bdays }, "ok N")
+      pure ({ s with cur := some c, tbl := c.bdays, curKey := none }, "ok N")
   | "reg", [.atom k, hol, we, t0, t1] =>
       let hol ← optIntList hol; let we ← optIntList we; let t0 ← optInt t0; let t1 ← optInt t1
       if degenerate (we.getD []) then none
-      let (r, c) := s.reg.calendar ymKey k { hol, weekend := we, t0, t1 }
-      pure ({ cur := some c, tbl := c.bdays, reg := r }, describe c)
+      -- `calendar(k, ...)`: the registry OBJECT (a new one, without a table, when the key is unknown or an argument is given); the
+      -- operations that follow are operations on that object (`ObjRegistry.useAt`): they read and build ITS table
+      let (r, o) := s.oreg.calendar ymKey k { hol, weekend := we, t0, t1 }
+      pure ({ cur := some o.cal, tbl := [], oreg := r, curKey := some k }, describe o.cal)
   | "ymd", [n] =>
       let n ← n.toInt?
       let (y, m, d) := Civil.ymd n
       pure (s, s!"ok (T I:{y} I:{m} I:{d} I:{Civil.wd n})")
   | _, _ =>
     let c ← s.cur
+    match s.curKey with
+    | some k =>
+      -- the current calendar is a registry object: every operation goes through the object model
+      if op = "ishol" then
+        match args with
+        | [t] => let t ← t.toInt?; pure (s, okBool (c.isHol t))
+        | _ => none
+      else
+      let u : Use ← (match op, args with
+        | "isb", [t] => do let t ← t.toInt?; pure (Use.isb t)
+        | "adjust", [a, t] => do let a ← adjOf c a; let t ← t.toInt?; pure (Use.adjust a t)
+        | "add", [a, t, n] | "bump", [a, t, n] => do let a ← adjOf c a; let t ← t.toInt?; let n ← n.toInt?; pure (Use.add a t n)
+        | "bdays", [a, x, y] => do let a ← adjOf c a; let x ← x.toInt?; let y ← y.toInt?; pure (Use.bdays a x y)
+        | "drange", [x, y, b] => do let x ← x.toInt?; let y ← y.toInt?; let b ← b.toInt?; pure (Use.drange x y b)
+        | "clock", [t] => do let t ← t.toInt?; pure (Use.clock t)
+        | _, _ => none)
+      match op, u with
+      | _, .add a t n =>
+        if n = 0 && c.isHol (c.adjust a t) then pure (s, "err Other")   -- real code: endless loop
+        else
+          let (r, ans) := s.oreg.useAt ymKey k u
+          pure ({ s with oreg := r }, renderAns ans)
+      | _, _ =>
+        let (r, ans) := s.oreg.useAt ymKey k u
+        pure ({ s with oreg := r }, renderAns ans)
+    | none =>
     match op, args with
     | "isb", [t] => let t ← t.toInt?; pure (s, okBool (c.isB t))
     | "ishol", [t] => let t ← t.toInt?; pure (s, okBool (c.isHol t))
@@ -97,7 +135,7 @@ def handle (s : St) (op : String) (args : List Sexp) : Option (St × String) := 
         else pure (s, resInt (c.addT s.tbl a t n))
     | "clock", [t] =>     -- Calendar.clock(t) = dt2int.get(t, dt2int[adjust(t)]) (_drange.py:615-618): the table index of adjust(t)
         let t ← t.toInt?
-        pure (s, match clockOfT s.tbl (c.adjust c.adj t) with
+        pure (s, match c.clockT s.tbl t with
                  | .ok i => okInt i
                  | .error e => "err " ++ e.render)
     | "bdays", [a, x, y] =>
